@@ -13,6 +13,11 @@
  *   both block-mapped and inline data: C09), possibly in two pieces, or fail.
  *   Claim: symlink(2) is called once with the true target -- all i_size bytes, NUL terminated -- and the
  *   requested link name; the buffer is i_size + 1 bytes; if open or read fails no link is created.
+ * KERNEL 3  rdump_dirent(): the directory-walk callback.  For a directory entry with a symbolic name of 1..4 non-NUL bytes:
+ *   every entry other than exactly "." and exactly ".." is handed to rdump_inode() once, with the entry's inode number, the
+ *   inode debugfs_read_inode() delivered, the dump root, and the entry's name_len bytes NUL-terminated (names that merely
+ *   START with dots, "..data", "...", ".x", are ordinary entries); an unreadable inode is skipped; the walk always continues.
+ *   ("." and ".." may be handed on as well: rdump_inode ignores them, KERNEL 2.)
  * KERNEL 2  rdump_inode(): the type dispatch, for every i_mode: symlink -> rdump_symlink, regular ->
  *   create/truncate + dump_file(preserve) + close, directory (not "." / "..") -> mkdir 0700, iterate with
  *   rdump_dirent, then fix_perms by name; device nodes, fifos, sockets: nothing is created.
@@ -23,6 +28,9 @@
 #include "ext2fs/ext2fs.h"
 #ifndef KERNEL
 #define KERNEL 1
+#endif
+#if KERNEL == 3
+static void rdump_inode(ext2_ino_t ino, struct ext2_inode *inode, const char *name, const char *dumproot);
 #endif
 #if KERNEL == 2
 static void rdump_symlink(ext2_ino_t ino, struct ext2_inode *inode, const char *fullname);
@@ -52,6 +60,9 @@ struct vf_in {
 	unsigned int part;		/* first read delivers this many bytes (0 = everything) */
 	int open_err, read_err_at;	/* read_err_at: k-th read fails (0 = never) */
 	int fd_kind;
+	unsigned char dname[4];		/* KERNEL 3: directory entry name */
+	unsigned int dlen, dtype;
+	int inode_read_fails;
 };
 VF_DECLARE_INPUT(struct vf_in, IN)
 #include "vf_input.inc"
@@ -156,7 +167,7 @@ int symlink(const char *target, const char *linkpath)
 			PROP(target[k] == 0, "string handed to symlink() ends after i_size bytes");
 	return 0;
 }
-#else
+#elif KERNEL == 2
 static int vf_nsym, vf_ndump, vf_nfix, vf_nmkdir, vf_ncreat, vf_ncl, vf_niter, vf_order;
 static char *vf_full;
 /* STUB: rdump_symlink()/dump_file()/fix_perms() (cut; harnesses rdump KERNEL 1, fix_perms; dump_file's read loop is outside): record calls */
@@ -211,6 +222,38 @@ int sprintf(char *s, const char *f, ...) { (void) f; s[0] = 0; return 0; }
 #endif
 #endif
 
+#if KERNEL == 3
+static int vf_ncall, vf_nreadino;
+static char vf_gotname[8];
+static const char *vf_root = "out/d";
+/* STUB: debugfs_read_inode(): delivers a tagged inode for the entry's inode number, or fails */
+int debugfs_read_inode(ext2_ino_t ino, struct ext2_inode *inode, const char *cmd)
+{
+	(void) cmd;
+	if (ino != IN.ino)
+		vf_bad = 1;
+	vf_nreadino++;
+	if (IN.inode_read_fails)
+		return 1;
+	memset(inode, 0, sizeof(*inode));
+	inode->i_generation = 0x5eed0000u ^ ino;
+	return 0;
+}
+/* STUB: rdump_inode() (cut; KERNEL 2): records the name it is given */
+static void rdump_inode(ext2_ino_t ino, struct ext2_inode *inode, const char *name, const char *dumproot)
+{
+	unsigned int i;
+	if (ino != IN.ino || inode->i_generation != (0x5eed0000u ^ ino) || dumproot != vf_root)
+		vf_bad = 1;
+	for (i = 0; i < 6; i++) {
+		vf_gotname[i] = name[i];
+		if (!name[i])
+			break;
+	}
+	vf_ncall++;
+}
+#endif
+
 int main(void)
 {
 	static struct struct_ext2_filsys fs_s;
@@ -225,7 +268,36 @@ int main(void)
 	/* BOUND: main.*: 128 inode bytes, NMAX target bytes */
 	for (i = 0; i < 128; i++)
 		ino.b[i] = IN.raw[i];
-#if KERNEL == 1
+#if KERNEL == 3
+	{
+		static struct ext2_dir_entry de;
+		int ret, special;
+		/* ASSUME: name of 1..4 bytes without NUL or '/', as the directory format requires */
+		ASSUME(IN.dlen >= 1 && IN.dlen <= 4);
+		for (i = 0; i < 4; i++)
+			if (i < IN.dlen)
+				ASSUME(IN.dname[i] != 0 && IN.dname[i] != '/');
+		de.inode = IN.ino;
+		de.rec_len = 12;
+		de.name_len = IN.dlen | ((IN.dtype & 7) << 8);		/* low byte length, high byte file type */
+		for (i = 0; i < 4; i++)
+			de.name[i] = IN.dname[i];			/* bytes behind name_len belong to the next entry: arbitrary */
+		ret = rdump_dirent(&de, 0, 1024, NULL, (void *) vf_root);
+		PROP(ret == 0 && !vf_bad, "the walk continues; inode number, inode and dump root passed through");
+		special = (IN.dlen == 1 && IN.dname[0] == '.') || (IN.dlen == 2 && IN.dname[0] == '.' && IN.dname[1] == '.');
+		if (!special && !IN.inode_read_fails) {
+			PROP(vf_ncall == 1, "every entry other than \".\" and \"..\" is handed to rdump_inode once (names that only start with dots too)");
+			for (i = 0; i < 5; i++) {
+				if (i < IN.dlen)
+					PROP((unsigned char) vf_gotname[i] == IN.dname[i], "the name handed on is the entry's name_len bytes");
+				if (i == IN.dlen)
+					PROP(vf_gotname[i] == 0, "the name handed on is NUL-terminated after name_len bytes");
+			}
+		}
+		if (IN.inode_read_fails)
+			PROP(vf_ncall == 0, "an entry whose inode cannot be read is skipped");
+	}
+#elif KERNEL == 1
 	{
 		unsigned int nacl = IN.acl ? 2 : 0;	/* an xattr block is 2 sectors of 512 bytes */
 #ifdef SIZE
